@@ -284,7 +284,7 @@ def prefix_events(rng, kind, stride=1, overwrite=False, large=False):
         stride = 1 if len(data) < 3000 else 5
     offsets = list(range(0, len(data), stride)) + [len(data)]
     if large:
-        offsets = list(range(0, len(data), 211)) + list(range(max(0, len(data) - 1200), len(data) + 1)) + list(range(0, 200))
+        offsets = list(range(0, len(data), stride if stride > 1 else 1)) + list(range(max(0, len(data) - 1200), len(data) + 1)) + list(range(0, 200))
     # always include the boundaries of every region and their neighbours
     acc = 0
     for _k, ln in regions:
